@@ -172,6 +172,8 @@ func runJob(job *spec.Job) (res spec.Result) {
 type args struct {
 	src     graph.EdgeSlice
 	sizes   map[string]graph.Size
+	sizes2  map[string]graph.Size
+	snapSz2 map[string]graph.Size
 	opts    []autog.Option
 	snapSrc [][]string
 	snapSz  map[string]graph.Size
@@ -324,6 +326,13 @@ func buildArgsRaw(c *spec.Call, mon any) (*args, error) {
 		}
 		a.opts = append(a.opts, autog.WithNodeSize(a.sizes))
 	}
+	if o.Sizes2 != nil {
+		a.sizes2 = map[string]graph.Size{}
+		for _, s := range o.Sizes2 {
+			a.sizes2[s.ID] = graph.Size{W: s.W, H: s.H}
+		}
+		a.opts = append(a.opts, autog.WithNodeSize(a.sizes2))
+	}
 	if o.NodeSpacing != nil {
 		a.opts = append(a.opts, autog.WithNodeSpacing(*o.NodeSpacing))
 	}
@@ -353,6 +362,35 @@ func (a *args) snapshot() {
 			a.snapSz[k] = v
 		}
 	}
+	if a.sizes2 != nil {
+		a.snapSz2 = map[string]graph.Size{}
+		for k, v := range a.sizes2 {
+			a.snapSz2[k] = v
+		}
+	}
+}
+
+func sizeMapChanged(which string, cur, snap map[string]graph.Size) string {
+	if cur == nil {
+		return ""
+	}
+	if len(cur) != len(snap) {
+		return fmt.Sprintf("%s size map length changed %d -> %d", which, len(snap), len(cur))
+	}
+	keys := make([]string, 0, len(cur))
+	for k := range cur {
+		keys = append(keys, k)
+	}
+	sort.Strings(keys)
+	for _, k := range keys {
+		v := cur[k]
+		w, ok := snap[k]
+		if !ok || math.Float64bits(v.X) != math.Float64bits(w.X) || math.Float64bits(v.Y) != math.Float64bits(w.Y) ||
+			math.Float64bits(v.W) != math.Float64bits(w.W) || math.Float64bits(v.H) != math.Float64bits(w.H) {
+			return fmt.Sprintf("%s size map entry %q changed", which, k)
+		}
+	}
+	return ""
 }
 
 // mutated compares the caller-owned arguments with their snapshot (C07: arguments left unmodified).
@@ -373,23 +411,11 @@ func (a *args) mutated() string {
 	if m := spareTouched(a.src); m != "" {
 		return m
 	}
-	if a.sizes != nil {
-		if len(a.sizes) != len(a.snapSz) {
-			return fmt.Sprintf("size map length changed %d -> %d", len(a.snapSz), len(a.sizes))
-		}
-		keys := make([]string, 0, len(a.sizes))
-		for k := range a.sizes {
-			keys = append(keys, k)
-		}
-		sort.Strings(keys)
-		for _, k := range keys {
-			v := a.sizes[k]
-			w, ok := a.snapSz[k]
-			if !ok || math.Float64bits(v.X) != math.Float64bits(w.X) || math.Float64bits(v.Y) != math.Float64bits(w.Y) ||
-				math.Float64bits(v.W) != math.Float64bits(w.W) || math.Float64bits(v.H) != math.Float64bits(w.H) {
-				return fmt.Sprintf("size map entry %q changed", k)
-			}
-		}
+	if m := sizeMapChanged("the caller's", a.sizes, a.snapSz); m != "" {
+		return m
+	}
+	if m := sizeMapChanged("the caller's second", a.sizes2, a.snapSz2); m != "" {
+		return m
 	}
 	return ""
 }
@@ -668,6 +694,23 @@ func runOne(ec *execCtx, c *spec.Call, a *args, r *spec.Resolution, mon *recMon)
 	t := s.AddRoot(g, body)
 	s.Run()
 	oc := finish(t)
+	if op := s.OrphanPanic; op != nil && g.ChildPanic == nil {
+		// a goroutine started by an earlier call of this process (a long-lived worker) panicked while this call ran:
+		// nobody can recover that; in real Go the process dies
+		switch p := op.(type) {
+		case simrt.BudgetExceeded:
+			oc.Verdict, oc.Detail = "BUDGET", p.Kind
+			oc.Site, oc.Stack = moduleFrame(s.OrphanStack)
+			oc.Hash = hashOf("BUDGET|" + p.Kind)
+		case simrt.HarnessError:
+			oc.Verdict, oc.Detail = "HARNESS", p.Msg
+		default:
+			oc.Verdict = "FATAL"
+			oc.Detail = "panic in a long-lived goroutine started by an earlier Layout call: " + normMsg(op)
+			oc.Site, oc.Stack = moduleFrame(s.OrphanStack)
+			oc.Hash = hashOf("FATAL|" + oc.Detail + "|" + oc.Site)
+		}
+	}
 	if oc.Bytes > 128<<20 || oc.Verdict == "BUDGET" {
 		// do not let this run's garbage count against the next run's live-heap budget
 		runtime.GC()
@@ -677,7 +720,7 @@ func runOne(ec *execCtx, c *spec.Call, a *args, r *spec.Resolution, mon *recMon)
 		oc.Verdict = "DEADLOCK"
 		oc.Detail = s.Dead.Msg
 	}
-	if !t.Done() && oc.Verdict != "DEADLOCK" {
+	if !t.Done() && oc.Verdict != "DEADLOCK" && oc.Verdict != "BUDGET" && oc.Verdict != "FATAL" && oc.Verdict != "HARNESS" {
 		oc.Verdict = "DEADLOCK"
 		oc.Detail = "caller task never finished"
 		if s.Dead != nil {
@@ -699,7 +742,14 @@ func runMulti(job *spec.Job) spec.Result {
 			return spec.Result{Error: err.Error()}
 		}
 		ec := &execCtx{job: job}
-		res.Outcomes = append(res.Outcomes, runOne(ec, c, a, &job.Res[i], nil))
+		oc := runOne(ec, c, a, &job.Res[i], nil)
+		res.Outcomes = append(res.Outcomes, oc)
+		if (oc.Verdict == "BUDGET" || oc.Verdict == "DEADLOCK" || oc.Verdict == "FATAL") && (oc.Tasks > 1 || simrt.Orphans() > 0) && i+1 < len(job.Res) {
+			// a call that involved several goroutines was cut short: the goroutines it shared with the rest of the process
+			// (long-lived workers) are in an undefined state, and in real Go the process would be hung or dead. The remaining
+			// resolutions are not run here; the supervisor runs each of them in a process of its own.
+			break
+		}
 	}
 	return res
 }
@@ -839,7 +889,7 @@ func runHistory(job *spec.Job) spec.Result {
 			oc = runOne(ec, c, a, r, mon)
 		}
 		res.Outcomes = append(res.Outcomes, oc)
-		if oc.Verdict == "FATAL" || oc.Verdict == "HARNESS" || ((oc.Verdict == "BUDGET" || oc.Verdict == "DEADLOCK") && oc.Tasks > 1) {
+		if oc.Verdict == "FATAL" || oc.Verdict == "HARNESS" || ((oc.Verdict == "BUDGET" || oc.Verdict == "DEADLOCK") && (oc.Tasks > 1 || simrt.Orphans() > 0)) {
 			// the process would be dead (or, for an aborted multi-goroutine call, in an undefined state):
 			// the history ends here; later calls are not executed
 			break
@@ -892,7 +942,7 @@ func runConc(job *spec.Job) spec.Result {
 		builtConc[i] = a
 		if so := job.Calls[i].ShareOpts; so != nil && *so >= 0 && *so < i {
 			// same Option values (and the size map they capture) as an earlier caller; the source stays this caller's own
-			a.opts, a.sizes = builtConc[*so].opts, builtConc[*so].sizes
+			a.opts, a.sizes, a.sizes2 = builtConc[*so].opts, builtConc[*so].sizes, builtConc[*so].sizes2
 			a.snapshot()
 		}
 		cfg, err := groupCfg(job, &job.Calls[i], resOf(i))
@@ -908,7 +958,7 @@ func runConc(job *spec.Job) spec.Result {
 	s.Run()
 	for _, sl := range slots {
 		oc := sl.finish(sl.t)
-		if !sl.t.Done() {
+		if !sl.t.Done() && oc.Verdict != "BUDGET" && oc.Verdict != "FATAL" && oc.Verdict != "HARNESS" {
 			oc.Verdict = "DEADLOCK"
 			if s.Dead != nil {
 				oc.Detail = s.Dead.Msg
@@ -976,7 +1026,7 @@ func plainCall(c *spec.Call, shared *args) (oc spec.Outcome) {
 		return spec.Outcome{Verdict: "HARNESS", Detail: err.Error()}
 	}
 	if shared != nil {
-		a.opts, a.sizes = shared.opts, shared.sizes
+		a.opts, a.sizes, a.sizes2 = shared.opts, shared.sizes, shared.sizes2
 		a.snapshot()
 	}
 	defer func() {
